@@ -385,6 +385,19 @@ func elemOfDeep(v ssa.Value) (sl, idx ssa.Value, ok bool) {
 						return true
 					}
 				}
+				// element / field slots of a local aggregate (varargs arrays, composite literals)
+				if a, isv := u.(ssa.Value); isv {
+					switch u.(type) {
+					case *ssa.IndexAddr, *ssa.FieldAddr:
+						for _, uu := range Uses(a) {
+							if st, isst := uu.(*ssa.Store); isst && st.Addr == a {
+								if rec(st.Val, d+1) {
+									return true
+								}
+							}
+						}
+					}
+				}
 			}
 			return false
 		case *ssa.Field:
